@@ -1,4 +1,5 @@
 import Dino.Shard
+import Dino.ShardEinsum
 /-! Line-protocol operations for the sharding model: `shard <op> args…` (integer ops) and
  `shard <F|Q> <op> args…` (numeric ops).  3-D tables travel as matrices separated by `|`. -/
 namespace Dino.Shard
@@ -26,7 +27,48 @@ def parseMesh? (s : String) : Option (Option (Nat × Nat × Nat)) :=
   | some [z, x, y] => some (some (z, x, y))
   | _ => none
 
+/-! ### `sharded_einsum` string logic: subscripts travel as comma separated code points (`_` = empty),
+ partition specs as comma separated axis names with `-` for `None` (`_` = empty spec) -/
+
+def parseChars? (s : String) : Option (List Char) := (parseNatVec? s).map (·.map Char.ofNat)
+def renderChars (cs : List Char) : String := renderNatVec (cs.map (·.toNat))
+
+def parseSpec? (s : String) : Option (List (Option String)) :=
+  if s = "_" then some [] else some ((s.splitOn ",").map fun t => if t = "-" then none else some t)
+
+def renderSpec (sp : List (Option String)) : String :=
+  if sp.isEmpty then "_" else ",".intercalate (sp.map fun t => t.getD "-")
+
+def renderRes {α : Type} (f : α → String) (r : ShardEinsum.Res α) : String :=
+  match r with
+  | .ok a => f a
+  | .error e => e
+
+def runE : List String → Option String
+  | ["parse", s] => do
+      let s ← parseChars? s
+      pure (renderRes (fun (t : List Char × List Char × List Char) =>
+        s!"{renderChars t.1} {renderChars t.2.1} {renderChars t.2.2}") (ShardEinsum.parseSubscripts s))
+  | ["reduce", l, r, o, spec] => do
+      let l ← parseChars? l; let r ← parseChars? r; let o ← parseChars? o; let spec ← parseSpec? spec
+      pure (renderRes (fun (c : Char) => toString c.toNat) (ShardEinsum.determineReduce l r o spec))
+  | ["transfer", l, r, o, spec] => do
+      let l ← parseChars? l; let r ← parseChars? r; let o ← parseChars? o; let spec ← parseSpec? spec
+      pure (renderRes (fun (c : Char) => toString c.toNat) (ShardEinsum.determineTransfer l r o spec))
+  | ["rev", s] => do
+      let s ← parseChars? s
+      pure (renderRes renderChars (ShardEinsum.reversedSubscripts s))
+  | ["plan", s, lsh, rsh, g, rspec, ospec] => do
+      let s ← parseChars? s; let lsh ← parseNatVec? lsh; let rsh ← parseNatVec? rsh
+      let g ← (if g = "n" then some none else (parseBool? g).map some)
+      let rspec ← parseSpec? rspec; let ospec ← parseSpec? ospec
+      pure (renderRes (fun (p : ShardEinsum.Plan) =>
+        s!"{renderBool p.gather} {renderSpec p.lhsSpec} {p.axis} {p.axisName.getD "-"} {p.reduce.toNat} {p.transfer.toNat}")
+        (ShardEinsum.plan s lsh rsh g rspec ospec))
+  | _ => none
+
 def runI : List String → Option String
+  | "es" :: rest => runE rest
   | ["ag", n] => do let n ← n.toNat?; pure (renderTraces (allgatherSym n))
   | ["rs", n] => do let n ← n.toNat?; pure (renderTraces (reducescatterSym n))
   | ["permfwd", n] => do
@@ -77,7 +119,32 @@ def renderOptVecS (r : Option (List K)) : String :=
   | some v => renderVec v
   | none => "value-error"
 
+/-- matrices with entrywise addition (`accum += …` on 2-D chunks) -/
+structure MatL where
+  m : List (List K)
+
+instance : Add (MatL K) := ⟨fun a b => ⟨List.zipWith Lin.vadd a.m b.m⟩⟩
+instance : Zero (MatL K) := ⟨⟨[]⟩⟩
+
+def renderDevMats (r : Option (List (MatL K))) : String :=
+  match r with
+  | some ms => if ms.isEmpty then "_" else "|".intercalate (ms.map fun m => renderMat m.m)
+  | none => "value-error"
+
 def runK : List String → Option String
+  | ["agmat", n, k, r, w, a, b] => do
+      -- A: (n·r) × (n·k) coefficients, device `d` holds rows chunk `d` (out spec); B: (n·k) × w inputs,
+      -- device `s` holds rows chunk `s`; `einsum('ik,kj->ij')`, `split_axis = 1`
+      let _n ← n.toNat?; let k ← k.toNat?; let r ← r.toNat?; let w ← w.toNat?
+      let a ← parseMat? (K := K) a; let b ← parseMat? (K := K) b
+      pure (renderDevMats K (allgatherMatmul (fun l x => MatL.mk (Lin.matMul l x w)) []
+        (fun d c => colChunk (rowChunk a d r) c k) (splitEvery k b)))
+  | ["rsmat", n, k, r, w, a, b] => do
+      -- device `s` holds columns chunk `s` of A (rhs spec) with all rows; `scatter_axis = 0`
+      let _n ← n.toNat?; let k ← k.toNat?; let r ← r.toNat?; let w ← w.toNat?
+      let a ← parseMat? (K := K) a; let b ← parseMat? (K := K) b
+      pure (renderDevMats K (matmulReducescatter (fun l x => MatL.mk (Lin.matMul l x w)) []
+        (fun s c => rowChunk (colChunk a s k) c r) (splitEvery k b)))
   | ["agmm", lhs, rhs] => do
       -- lhs[a][c]: chunk c (a scalar) of the block of device a; rhs[s]: shard of device s
       let lhs ← parseMat? (K := K) lhs; let rhs ← parseVec? (K := K) rhs
@@ -97,7 +164,9 @@ def runK : List String → Option String
       pure (renderMat (parallelDotCumsumInclusive sh))
   | ["dlon", srows, width, x] => do
       let srows ← srows.toNat?; let width ← width.toNat?; let x ← parseMat? (K := K) x
-      pure (renderMat (shardedDerivative (splitEvery srows x) width).flatten)
+      match shardedDerivativeChecked (splitEvery srows x) width with
+      | some r => pure (renderMat r.flatten)
+      | none => pure "value-error"
   | ["unstack", srows, x] => do
       let srows ← srows.toNat?; let x ← parseVec? (K := K) x
       pure (renderMat (shardedUnstackM (splitEvery srows x)))
